@@ -377,6 +377,25 @@ class ProofMachine(QueryMachine):
                     raise Violation(f'block.header({h},{cp}) answered during the run verifies '
                                     f'against no chain the daemon ever had: root {res.get("root")}',
                                     'window_header_proof')
+            elif info.get('method') == 'blockchain.block.headers' and isinstance(res, dict) \
+                    and 'root' in res:
+                start, _, cp = info['params']
+                count = res.get('count')
+                if chains is None:
+                    chains = self.candidate_chains()
+                ok = False
+                for ch in chains:
+                    if len(ch) > cp and isinstance(count, int) and 0 < count and \
+                            start + count <= len(ch) and \
+                            ''.join(b.header.hex() for b in ch[start:start + count]) == res.get('hex') \
+                            and check_header_proof(ch, start + count - 1, cp, res, '') is None:
+                        ok = True
+                        break
+                if not ok:
+                    raise Violation(f'block.headers({start},{info["params"][1]},{cp}) answered '
+                                    f'during the run: the {count} headers and the proof verify '
+                                    f'against no single chain the daemon ever had',
+                                    'window_headers_proof')
             elif info.get('method') == 'blockchain.transaction.get_merkle' and isinstance(res, dict):
                 txh, height = info['params']
                 ok = False
@@ -476,6 +495,37 @@ class ProofMachine(QueryMachine):
                                  [{'cb': [[2, 1]], 'nonce': 9, 'coll': None, 'txs': [], 'mp': []}]],
                                 loop)
             return
+        if op[0] == 'flag_flip':
+            # (C11 reuses this slot too) the header read of a header-with-proof request is in
+            # flight - executed, delivered late - while the block it read is replaced and the
+            # checkpoint height it asks for comes into existence on the new branch
+            c = self.client(op[1])
+            if c is None:
+                return
+            await asyncio.sleep(7)
+            tip = self.server.db.state.height
+            if tip < 3 or tip != self.world.height or self.clamp_depth(1) == 0:
+                return
+
+            def rule(job, armed=[True]):
+                if armed[0] and job.name == 'read_headers':
+                    armed[0] = False
+                    loop.job_time_rule = None
+                    return 0.0, 14.0
+                return 0.0, 0.0
+            loop.job_time_rule = rule
+            if op[3] % 2:
+                self.send(c, 'blockchain.block.header', [tip, tip + 1],
+                          {'kind': 'query', 'method': 'blockchain.block.header'})
+            else:
+                self.send(c, 'blockchain.block.headers', [tip - 1 - op[2] % 2, 2 + op[2] % 2, tip + 1],
+                          {'kind': 'query', 'method': 'blockchain.block.headers'})
+            await asyncio.sleep(0.01)
+            self.info['classes'].add('header_read_in_flight_across_reorg')
+            await super().apply(['fork', 1, [{'cb': [[1, 2]], 'nonce': 11, 'coll': None, 'txs': [],
+                                              'mp': []}]], loop)
+            await asyncio.sleep(16)
+            return
         await super().apply(op, loop)
 
     async def check_queries(self, model, mp):
@@ -559,7 +609,8 @@ def body_dynamic(ctx):
         msg, sig, info = run_dynamic(ctx.scratch, case)
         classes = info['classes']
         ctx.record(case=case, nontrivial=bool(classes & {'proof_request_across_backup',
-                                                         'extension_read_in_flight_before_reorg'}),
+                                                         'extension_read_in_flight_before_reorg',
+                                                         'header_read_in_flight_across_reorg'}),
                    classes=sorted(classes) + ['dynamic'],
                    sample={'check': 'c11.dynamic', 'ops': case['ops'][:10], 'tape': case['tape'][:20]})
         ctx.extra['proofs_verified'] = ctx.extra.get('proofs_verified', 0) + info['checked_queries']
